@@ -163,6 +163,8 @@ type Result struct {
 	LogFlag  bool
 	StateOut state.State
 	Chain    []string // interpreter only: programs entered
+	// UninitReads (interpreter only): reads of stack bytes never written in the current frame.
+	UninitReads []bpfvm.Fault
 }
 
 func classify(ret uint32, xdp bool) string {
@@ -437,6 +439,7 @@ func NewVM(o Options, fds FDs) *VM {
 	}
 	v.polj = bpfvm.ProgTable{}
 	v.vm = &bpfvm.VM{
+		LenientUninit: true,
 		Maps:       map[uint32]bpfvm.Map{uint32(fds.State): v.state, uint32(fds.IPSets): v.ipsets},
 		ProgArrays: map[uint32]bpfvm.ProgArray{uint32(fds.Static): v.static, uint32(fds.PolJump): v.polj},
 	}
@@ -485,5 +488,6 @@ func (v *VM) Run(ps PacketState, o Options) (Result, *bpfvm.Fault) {
 	}
 	r := decode(uint32(ret), v.state.Entries[0], v.xdp)
 	r.Chain = append([]string(nil), v.vm.Chain...)
+	r.UninitReads = append([]bpfvm.Fault(nil), v.vm.UninitReads...)
 	return r, nil
 }
